@@ -394,7 +394,7 @@ fn c08_seq<F: Fam>(ctx: &Ctx, pk: &[(F::Packet, Vec<u8>)], seq: &[usize], schedu
 
 pub fn c08(ctx: &Ctx) {
     let (seq_len, e1_len) = if ctx.thorough() { (4, 4) } else { (3, 3) };
-    ctx.set_rule(&format!("a confusable packet alphabet per family (body-less packets, short forms, payloads ending in plausible control bytes, multi-byte topics, 128-/130-byte bodies, lists whose length only the header knows, empty payloads): ALL sequences of length <= {seq_len} through the blocking decoder (offset advanced by encode_len of the result, helpers header_len/remaining_len), all sequences of length <= 2 through the async decoder on one cursor and the poll decoder with caller-side reset under every cut set of <= 2 cuts at boundary-1..boundary+2 (with/without Pending, future kept/re-created) and byte-wise delivery; E1 state-space exploration of all sequences of length <= {e1_len} over the short packets (boundary chunk alphabet); final decode must report a clean end of input with an untouched header state. Non-trivial = sequences of >= 2 packets"));
+    ctx.set_rule(&format!("a confusable packet alphabet per family (body-less packets, short forms, payloads ending in plausible control bytes, multi-byte topics, 128-/130-byte bodies, lists whose length only the header knows, empty payloads): ALL sequences of length <= {seq_len} through the blocking decoder (offset advanced by encode_len of the result, helpers header_len/remaining_len), all sequences of length <= 2 through the async decoder on one cursor and the poll decoder with caller-side reset under every cut set of <= 2 cuts at boundary-1..boundary+2 (with/without Pending, future kept/re-created) and byte-wise delivery; E1 state-space exploration of all sequences of length <= {e1_len} over the short packets (boundary chunk alphabet); final decode must report a clean end of input with an untouched header state; history leg: a mixed list of frames, truncations, long-string frames and malformed frames, every ordered pair decoded back to back on one thread at the same buffer address, each outcome compared with its fresh-thread baseline. Non-trivial = sequences of >= 2 packets"));
     fn fam<F: Fam>(ctx: &Ctx, seq_len: usize, e1_len: usize) {
         let alpha = c08_alphabet(F::FAMILY);
         let pk: Vec<(F::Packet, Vec<u8>)> = alpha
@@ -442,6 +442,9 @@ pub fn c08(ctx: &Ctx) {
     }
     fam::<V3>(ctx, seq_len, e1_len);
     fam::<V5>(ctx, seq_len, e1_len);
+    // histories of separate decodes on one thread (fresh-thread baseline, all ordered pairs)
+    crate::checks::history::decode_history::<V3>(ctx, "C08");
+    crate::checks::history::decode_history::<V5>(ctx, "C08");
     ctx.sample(json!({"stream": "c0 00 40 02 30 00 30 03 00 01 61", "expect": "Pingreq, Puback(0x3000), Publish(\"a\", empty) then clean end of input"}));
 }
 
